@@ -199,6 +199,12 @@ def check_push(ctx, prog, R, eff):
     ok = all(len(x) == 1 for x in (hr, hw, ws, wl, wn, zp))
     if not ctx.check(ok, "push-pop-inverse", "push:shape", "free-slot push: expected exactly one head read, size write, length marker, next write, zero pad and head write", where=where(fn)):
         return
+    # ... on every successful path: a "nothing to file" exit (for instance truncating the file when the freed slot is the
+    # last one) leaves later readers of that offset - an iterator positioned there - outside the file
+    from .util import zero_splits as _zs
+    null_edges = [z["true"] for z in _zs(prog, fn, lambda a: all(x.kind == "param" and x.data == 2 and not x.proj for x in a))]     # "no slot" (offset 0): nothing to file
+    ctx.check(not fn.success_reach_return(0, [hw[0][0]] + null_edges), "push-pop-inverse", "push:always",
+              "the free-slot push can return Ok without filing the slot on its list", where=where(fn))
     seq = [hr[0][0], ws[0][0], wl[0][0], wn[0][0], zp[0][0], hw[0][0]]
     ctx.check(all(fn.dominates(seq[i], seq[i + 1]) for i in range(len(seq) - 1)), "push-pop-inverse", "push:order",
               "free-slot push does not proceed head-read, size, length marker, next, zero pad, head-write", where=where(fn))
@@ -273,6 +279,18 @@ def check_large_pop(ctx, prog, R, eff):
     o = hs[0]["cond"][0]
     name = o.data["callee"].rsplit("::", 1)[1]
     hit_entry = hs[0]["true"]
+    # which edge of the test implies `requested <= found`?  (operand order and operator together)
+    sides0 = [origins(prog, fn, a, at=o.block) for a in o.data["args"]]
+    req_first = bool(sides0[0]) and all(x.kind == "param" and x.data == 2 for x in sides0[0])
+    fits_on_true = {("le", True): True, ("lt", True): True, ("ge", True): False, ("gt", True): False,
+                    ("ge", False): True, ("gt", False): True, ("le", False): False, ("lt", False): False, ("eq", True): True, ("eq", False): True}[(name, req_first)]
+    if eff.must_from(fn, hs[0]["true"], "SLOT_CLEAR") is not True and eff.must_from(fn, hs[0]["false"], "SLOT_CLEAR") is True:
+        # `if found < requested { continue }` - the slot is taken on the false edge
+        hit_entry = hs[0]["false"]
+        fits_on_true = not fits_on_true and name != "eq"
+    ctx.check(fits_on_true, "large-pop", "first-fit-polarity",
+              "the large-slot pop takes a free slot on the edge of its size test that does NOT imply `requested <= found size` (operands or operator reversed): "
+              "a slot smaller than the record is handed out and the record overwrites what follows", where=where(fn, hs[0]["block"]))
     r_hit = region_dominated(fn, hit_entry)
     may = eff.region_may(fn, r_hit)
     ctx.check(eff.must_from(fn, hit_entry, "SLOT_CLEAR") is True, "large-pop", "clears-slot", "a large slot can be handed out without being cleared", where=where(fn, hit_entry))
